@@ -314,18 +314,7 @@ func (e *Engine) havocCall(st *State, key string, callee *ssa.Function, args []V
 		// external callee without a contract: shallow frame (assumption, listed in the evidence): it may change the
 		// objects its reference arguments point to (pointee / slice elements / map / receiver) and allocate, nothing else.
 		e.havocCalls[key+" (external, no contract: shallow frame assumed - may modify only the objects its arguments refer to)"] = true
-		var roots []string
-		for _, a := range args {
-			addrsIn(a, func(term, root string) {
-				if term != "" && term != "null" {
-					roots = append(roots, "(root "+term+")")
-				}
-			})
-			if a.K == KIface {
-				roots = append(roots, "(root (iaddr "+a.T+"))")
-			}
-		}
-		e.havocRoots(st, roots)
+		e.havocShallow(st, args)
 		st.bumpWatermark()
 		return
 	}
@@ -339,6 +328,117 @@ func (e *Engine) havocCall(st *State, key string, callee *ssa.Function, args []V
 		e.havocCalls[key+" (module code without contract: all program heaps havocked; ghost state kept: the callee cannot reach an operation that changes it)"] = true
 	}
 	e.havocAllG(st, ghost)
+}
+
+// havocShallow: the pointee of a pointer argument, the elements of a slice argument, the contents of a map argument
+// and the object behind an interface argument may change; nothing else.
+func (e *Engine) havocShallow(st *State, args []Val) {
+	type pred struct {
+		heap string
+		f    func(a string) string
+	}
+	var preds []pred
+	var roots []string
+	var walk func(v Val)
+	walk = func(v Val) {
+		switch v.K {
+		case KAddr:
+			if v.T == "null" || v.T == "" {
+				return
+			}
+			if v.Ty != nil {
+				if mt, ok := v.Ty.Underlying().(*types.Map); ok {
+					t := v.T
+					for _, hn := range []string{e.mapDomHeap(mt), "ML"} {
+						hn := hn
+						preds = append(preds, pred{hn, func(a string) string { return "(= " + a + " " + t + ")" }})
+					}
+					if vh, _, sc := e.mapValHeap(mt); sc {
+						preds = append(preds, pred{vh, func(a string) string { return "(= " + a + " " + t + ")" }})
+					}
+					return
+				}
+				if et := derefType(v.Ty); et != nil {
+					n := 0
+					leafPaths(v.T, et, func(addr string, k Kind, _ types.Type) {
+						n++
+						addr2 := addr
+						_ = addr2
+						preds = append(preds, pred{heapOfKind(k), func(a string) string { return "(= " + a + " " + addr + ")" }})
+					})
+					if n > 0 && n <= 64 {
+						// slices inside the pointee: their elements too
+						return
+					}
+				}
+			}
+			roots = append(roots, "(root "+v.T+")")
+		case KSlice:
+			if v.Base == "null" {
+				return
+			}
+			var et types.Type
+			if v.Ty != nil {
+				if sl, ok := v.Ty.Underlying().(*types.Slice); ok {
+					et = sl.Elem()
+				}
+			}
+			if et == nil {
+				roots = append(roots, "(root "+v.Base+")")
+				return
+			}
+			b := v.Base
+			switch k := kindOf(et); k {
+			case KInt, KBool, KAddr, KStr, KIface, KReal, KFunc:
+				preds = append(preds, pred{heapOfKind(k), func(a string) string {
+					return "(and (= (root " + a + ") (root " + b + ")) ((_ is pelem) (path " + a + ")) (= (peb (path " + a + ")) (path " + b + ")))"
+				}})
+			default:
+				for _, hn := range leafHeapsOf(et) {
+					preds = append(preds, pred{hn, func(a string) string { return "(= (root " + a + ") (root " + b + "))" }})
+				}
+			}
+		case KIface:
+			roots = append(roots, "(root (iaddr "+v.T+"))")
+		case KStruct, KTuple, KArr:
+			for _, f := range v.F {
+				walk(f)
+			}
+		case KFunc:
+			for _, b := range v.Bind {
+				walk(b)
+			}
+		}
+	}
+	for _, a := range args {
+		walk(a)
+	}
+	if len(roots) > 0 {
+		for _, hn := range baseHeaps {
+			for _, r := range roots {
+				r := r
+				preds = append(preds, pred{hn, func(a string) string { return "(= (root " + a + ") " + r + ")" }})
+			}
+		}
+	}
+	by := map[string][]pred{}
+	var order []string
+	for _, p := range preds {
+		if _, ok := by[p.heap]; !ok {
+			order = append(order, p.heap)
+		}
+		by[p.heap] = append(by[p.heap], p)
+	}
+	sortStrings(order)
+	for _, hn := range order {
+		old := st.heap(hn)
+		nw := st.havocHeap(hn)
+		var cs []string
+		for _, p := range by[hn] {
+			cs = append(cs, p.f("a"))
+		}
+		st.assume("(forall ((a Addr)) (! (=> (not " + sOr(cs...) + ") (= (select " + nw + " a) (select " + old + " a))) :pattern ((select " + nw + " a))))")
+	}
 }
 
 // havocRoots forgets the contents of the objects with the given root terms (all program heaps and map heaps).
@@ -533,6 +633,12 @@ func (e *Engine) applyContract(st *State, c *FuncContract, key string, sig *type
 			e.unsupported("requires %d of %s: %v", r.Ord, key, err)
 			continue
 		}
+		if hasTag(r.Tags, "SAFETY") && !st.safetyOn() {
+			// a precondition whose violation is a run-time panic: an obligation only for functions that check
+			// safety; elsewhere executions that panic are outside the (partial-correctness) claim
+			st.assume(t)
+			continue
+		}
 		st.addCheck(&Check{Name: fmt.Sprintf("%s.call.%s.pre.%d@%s", e.curFunc, lastSeg(key), r.Ord, shortPos(posStr(e, pos))), Kind: "pre", Goal: t,
 			Pos: posStr(e, pos), Tags: r.Tags, Func: e.curFunc, Clause: r.Text, Bounded: st.boundedNow()})
 		st.assume(t)
@@ -551,6 +657,8 @@ func (e *Engine) applyContract(st *State, c *FuncContract, key string, sig *type
 		e.checkCalleeAssigns(st, env, c.Assigns, pos)
 		e.havocDesignators(st, env, c.Assigns, "call "+key)
 		st.bumpWatermark()
+	} else {
+		st.bumpWatermark() // the callee may allocate: its results may be objects that did not exist before the call
 	}
 	// results
 	var res Val
@@ -1479,4 +1587,13 @@ func (e *Engine) nameVal(st *State, v Val, hint string) Val {
 		v.F = f
 	}
 	return v
+}
+
+func hasTag(tags []string, t string) bool {
+	for _, x := range tags {
+		if x == t {
+			return true
+		}
+	}
+	return false
 }
